@@ -314,16 +314,31 @@ def run(ck):
 
 META = {
     "category": "proof",
-    "text": ("The IL validator `wf` is proved sound in Lean (wf_sound: an accepted module never gets stuck on an undefined "
+    "text": ("The IL validator `wf` is proved sound in Lean.  wf_sound: an accepted module never gets stuck on an undefined "
              "temporary, unknown label, phi without matching predecessor or by falling off a function, for all functions, "
-             "arguments and fuel; wf_single_def, wf_labels_static).  The property quantifies over cproc's outputs, which no "
-             "model of the whole front end covers, so the theorem is brought to bear by running the proved validator on every "
-             "module the freshly built compiler emits with status 0: corpus x 3 targets, cproc's own sources, generated "
-             "programs, token mutants; plus data size/alignment against sizeof/_Alignof and the exit status under write "
-             "failures.  Partial: acceptance of *this* compiler's output is validated per input, not proved for all inputs."),
+             "arguments, fuel and external functions; wf_single_def, wf_labels_static.  Classes (wf unchanged): "
+             "wf_classes_static (every instruction/jump/phi/direct call uses its operands at classes the static class map "
+             "allows, the opcode exists with the named result class, arguments/results agree with the callee's signature), "
+             "wf_classes_preserved (every step preserves the typing invariant: each bound temporary holds a value of its "
+             "class), wf_sound_classes_at (a run ending in a class mismatch -- operand/result/jnz/phi/store operand, "
+             "argument/parameter, returned value or call result of the wrong class or count -- stopped at an INDIRECT call), "
+             "wf_sound_classes_partial / wf_sound_full_partial (modules whose calls are all direct: no run ends in a class "
+             "mismatch, given ArgsOk for the entry arguments and the explicit hypothesis ExtOk on external functions).  The "
+             "property quantifies over cproc's outputs, which no model of the whole front end covers, so the theorems are "
+             "brought to bear by running the proved validator on every module the freshly built compiler emits with status "
+             "0: corpus x 3 targets, cproc's own sources, generated programs, token mutants; plus data size/alignment "
+             "against sizeof/_Alignof and the exit status under write failures.  Partial: acceptance of *this* compiler's "
+             "output is validated per input, not proved for all inputs."),
     "design_ref": "DESIGN.md section 4, C03",
     "note": ("Trusted: Lean kernel + standard axioms; Spec/Qbe*.lean as the reading of the QBE reference; the generators. "
-             "Not proved: that cproc's emitter only produces wf modules (checked per run on everything generated); class "
-             "mismatch freedom (executed by wf, outside wf_sound)."),
+             "Not proved: that cproc's emitter only produces wf modules (checked per run on everything generated).  Class "
+             "mismatch freedom is now INSIDE the theorems (Props/C03.lean, Lemmas/QbeCls*.lean) with these limits: (1) calls "
+             "through a computed address (function pointers) cannot be compared with the callee's signature by any static "
+             "check of QBE IL -- wf_sound_classes_full (no restriction) is stated as a def and is false, wf_sound_classes_at "
+             "proves an indirect call is the only place a class mismatch can arise, wf_sound_classes_partial assumes "
+             "DirectCalls; (2) external functions are covered by the hypothesis ExtOk (no class error of their own, result "
+             "readable at the class named at the call site); (3) deliberately not counted as class mismatches: use of the "
+             "result of a call whose callee executed `ret` without a value (well-formed IL, undefined behaviour in C), "
+             "vastart in a non-variadic function, unknown aggregate type."),
     "technique": "Lean 4 proof of validator soundness + validation of every emitted module (translation validation)",
 }
